@@ -291,12 +291,15 @@ func closerManager(s *simrt.Sim) {
 		closers = append(closers, mkUnit(s, 20+i, true))
 	}
 	var grace *time.Duration
-	switch s.Choose(3, "grace") {
+	switch s.Choose(4, "grace") {
 	case 1:
 		g := time.Second
 		grace = &g
 	case 2:
 		g := 3 * time.Millisecond
+		grace = &g
+	case 3:
+		g := time.Duration(0) // a grace period of zero is a grace period: exceeded by any closer that takes time
 		grace = &g
 	}
 	var rs []concurrency.Runner
